@@ -13,6 +13,8 @@ import (
 
 	"github.com/samaritan-proxy/samaritan/verifrt/hutil"
 	"github.com/samaritan-proxy/samaritan/verifrt/sched"
+	"google.golang.org/grpc/codes"
+	"google.golang.org/grpc/status"
 )
 
 func TestVerif(t *testing.T) { hutil.Quiet(); sched.Main(t) }
@@ -50,12 +52,12 @@ func (s *fakeStream) Send(sub, unsub []string) error {
 		sched.Wait("stream-send-in-progress", "stream", func() bool { return !s.w.holdSend })
 	}
 	if s.broken {
-		return errors.New("stream broken")
+		return s.w.err("stream broken")
 	}
 	if s.w.sendFailures > 0 && sched.Choose(sched.ClsEnv, 2, "send-fails") == 1 {
 		s.w.sendFailures--
 		s.broken = true
-		return errors.New("send failed")
+		return s.w.err("send failed")
 	}
 	s.msgs++
 	in := map[string]bool{}
@@ -74,7 +76,10 @@ func (s *fakeStream) Send(sub, unsub []string) error {
 
 func (s *fakeStream) Recv() error {
 	sched.Wait("stream-recv", "stream", func() bool { return s.broken || s.recvBroken || s.w.cancelled })
-	return errors.New("stream closed")
+	if s.w.cancelled {
+		return errors.New("stream closed")
+	}
+	return s.w.err("stream closed")
 }
 
 type c16world struct {
@@ -85,16 +90,28 @@ type c16world struct {
 	cancelled    bool
 	down         bool // the discovery service is unreachable: no stream can be created
 	holdSend     bool // Send calls are in progress until released
+	errKind      int  // what a failing stream operation returns: 0 a plain error, 1 gRPC status Canceled, 2 gRPC status Unavailable
+}
+
+// err is the error of a failed stream operation (the client's own context is alive whenever it is returned).
+func (w *c16world) err(msg string) error {
+	switch w.errKind {
+	case 1:
+		return status.Error(codes.Canceled, msg) // e.g. the server cancelled the RPC while shutting down
+	case 2:
+		return status.Error(codes.Unavailable, msg)
+	}
+	return errors.New(msg)
 }
 
 func (w *c16world) maker(ctx context.Context) (svcDiscoveryStream, error) {
 	sched.Op("stream-create", "stream")
 	if w.down {
-		return nil, errors.New("discovery service unreachable")
+		return nil, w.err("discovery service unreachable")
 	}
 	if w.createFails > 0 && sched.Choose(sched.ClsEnv, 2, "create-fails") == 1 {
 		w.createFails--
-		return nil, errors.New("cannot create stream")
+		return nil, w.err("cannot create stream")
 	}
 	s := &fakeStream{w: w, id: len(w.streams), set: map[string]bool{}}
 	w.streams = append(w.streams, s)
@@ -292,6 +309,7 @@ var c16phaseOps = []string{"+x", "-x", "+y", "-y", "outage", "back"}
 
 type c16phaseCase struct {
 	Ops []int `json:"ops"`
+	Err int   `json:"error_kind,omitempty"` // 0 plain error, 1 gRPC Canceled, 2 gRPC Unavailable
 }
 
 func (c c16phaseCase) String() string {
@@ -304,7 +322,7 @@ func (c c16phaseCase) String() string {
 
 func c16phaseRun(cs c16phaseCase) (sig, detail string) {
 	e := sched.RunOnce(nil, sched.Options{MaxSteps: 200000}, func() {
-		w := &c16world{}
+		w := &c16world{errKind: cs.Err}
 		w.c = newSvcDiscoveryClient("config", w.maker)
 		ctx, cancel := context.WithCancel(context.Background())
 		sched.GoNamed("Run", func() { w.c.Run(ctx) })
@@ -365,20 +383,32 @@ func c16phases(env sched.Env) *sched.Report {
 		if len(ops) > 0 {
 			n++
 			if n%env.NShards == env.Shard {
-				cs := c16phaseCase{append([]int{}, ops...)}
-				sched.Progress(cs)
-				sig, detail := c16phaseRun(cs)
-				rep.Execs++
-				sched.Progress(nil)
-				rep.Transitions += int64(len(ops))
-				if sig != "" {
-					rep.Outcomes["violation: "+sig]++
-					if !sigs[sig] {
-						sigs[sig] = true
-						rep.Violations = append(rep.Violations, sched.CustomViolation("C16/phases", sig, detail, cs))
+				outage := false
+				for _, o := range ops {
+					outage = outage || c16phaseOps[o] == "outage"
+				}
+				for kind := 0; kind < 3; kind++ {
+					if kind > 0 && !outage {
+						continue // (the kind of error only matters where a stream operation fails)
 					}
-				} else {
-					rep.Outcomes["ok"]++
+					cs := c16phaseCase{Ops: append([]int{}, ops...), Err: kind}
+					sched.Progress(cs)
+					sig, detail := c16phaseRun(cs)
+					rep.Execs++
+					sched.Progress(nil)
+					rep.Transitions += int64(len(ops))
+					if sig != "" {
+						if kind > 0 {
+							sig += fmt.Sprintf(" / stream errors with gRPC status %s", []string{"", "Canceled", "Unavailable"}[kind])
+						}
+						rep.Outcomes["violation: "+sig]++
+						if !sigs[sig] {
+							sigs[sig] = true
+							rep.Violations = append(rep.Violations, sched.CustomViolation("C16/phases", sig, detail, cs))
+						}
+					} else {
+						rep.Outcomes["ok"]++
+					}
 				}
 			}
 		}
@@ -391,7 +421,7 @@ func c16phases(env sched.Env) *sched.Report {
 	}
 	rec(nil)
 	rep.States, rep.Distinct = rep.Execs, rep.Execs
-	rep.CustomSamples = []interface{}{c16phaseCase{[]int{0, 4, 1, 5, 0}}.String()}
+	rep.CustomSamples = []interface{}{c16phaseCase{Ops: []int{0, 4, 1, 5, 0}}.String()}
 	return rep
 }
 
